@@ -81,14 +81,22 @@ func (c conn) SetWriteDeadline(t time.Time) error {
 
 // enterDeadlineCall: with hold set, a call that moves the write deadline into the past is kept
 // from taking effect (the calling goroutine is not scheduled) until somebody clears the write
-// deadline, or until 10 ms after the next Write has completed, or for 500 ms.  Code that orders its own
+// deadline, or until 10 ms after a Write of the current operation has completed, or for 500 ms.  Code that orders its own
 // "past" and "clear" calls (one goroutine, or a join) is merely slowed down; a clear that does
-// not wait for a "past" call still in flight is overtaken by it.
+// not wait for a "past" call still in flight is overtaken by it.  (A clear is itself delayed by
+// 3 ms so that a goroutine started to make the "past" call has reached it.)
 func (cs *connState) enterDeadlineCall(t time.Time) {
 	cs.mu.Lock()
 	cs.inflight++
+	if cs.hold && t.IsZero() {
+		// a clear is not scheduled at once either: a goroutine that was started to move the
+		// deadline gets the time to reach its call
+		cs.mu.Unlock()
+		time.Sleep(3 * time.Millisecond)
+		cs.mu.Lock()
+	}
 	hold := cs.hold && !t.IsZero() && time.Until(t) <= 0
-	z0, w0 := cs.nZero, cs.nDone
+	z0, w0 := cs.nZero, cs.opBase
 	if t.IsZero() {
 		cs.nZero++
 	}
